@@ -157,6 +157,42 @@ func timeoutTables(c *core.Ctx) {
 			return true
 		})
 	}
+	// the parse side reads the map with the unit byte exactly as the peer wrote it (no case folding, no
+	// arithmetic on the key): near-misses like "10s" are grammar errors
+	reads, plain := 0, 0
+	for _, fd := range p.AllFuncDecls(p.Connect) {
+		lhs := map[ast.Expr]bool{}
+		ast.Inspect(fd.Body, func(n ast.Node) bool {
+			if as, ok := n.(*ast.AssignStmt); ok {
+				for _, l := range as.Lhs {
+					lhs[astx.Unparen(l)] = true
+				}
+			}
+			return true
+		})
+		ast.Inspect(fd.Body, func(n ast.Node) bool {
+			ie, ok := n.(*ast.IndexExpr)
+			if !ok || lhs[ie] || astx.ObjOf(info, ie.X) != types.Object(lookup) {
+				return true
+			}
+			reads++
+			key := astx.Unparen(ie.Index)
+			if id, isID := key.(*ast.Ident); isID {
+				if def := soleDefinition(info, fd.Body, astx.ObjOf(info, id)); def != nil {
+					key = astx.Unparen(def)
+				}
+			}
+			if ke, isIdx := key.(*ast.IndexExpr); isIdx {
+				if t := info.TypeOf(ke.X); t != nil && types.Identical(t.Underlying(), types.Typ[types.String]) {
+					plain++
+					return true
+				}
+			}
+			c.Violation("lookup/key/"+core.FuncName(fd), ie.Pos(), "%s looks the unit up under %s, not under the header's own last byte", core.FuncName(fd), types.ExprString(ie.Index))
+			return true
+		})
+	}
+	c.Check(reads == 1 && plain == 1, "lookup/single-reader", lookup.Pos(), "parse-side lookup map is read %d time(s), %d of them with a byte of the header as written", reads, plain)
 	c.Check(writes == 1 && good == 1, "lookup/single-writer", lookup.Pos(), "parse-side lookup map has %d write(s), %d of them the init loop over the encoder's table", writes, good)
 }
 
@@ -333,6 +369,34 @@ func timeoutArith(c *core.Ctx) {
 		}
 		if size <= 0 {
 			continue
+		}
+		// more than 8 digits is a grammar error for every unit - also for the units whose product would
+		// overflow: the digit test comes before the "effectively unbounded" shortcut
+		for _, tooLong := range []int64{100000000, 999999999} {
+			rejected, decided := false, true
+			astx.ForEachExit(info, pfd.Body, func(s *astx.State, kind astx.ExitKind, ret *ast.ReturnStmt) {
+				if ret == nil || len(ret.Results) != 2 {
+					return
+				}
+				var facts []astx.Cond
+				for _, f := range s.Facts {
+					facts = append(facts, astx.Cond{Expr: f.Expr, Pol: f.Pol})
+				}
+				ok, err := (astx.DNF{facts}).Eval(info, env(tooLong, size), nil, nil)
+				if err != nil {
+					decided = false
+					return
+				}
+				if ok {
+					rejected = !astx.IsNil(info, ret.Results[1]) && astx.ObjOf(info, ret.Results[1]) != errNoTimeout
+				}
+			})
+			k2 := fmt.Sprintf("grpc/parse/too-long/%c/%d", rune(ch), tooLong)
+			if !decided {
+				c.Undecided(k2, el.Pos(), "guards not decidable")
+			} else {
+				c.Check(rejected, k2, el.Pos(), "unit %q: %d (9 digits) ends in an error that is not the no-timeout sentinel", rune(ch), tooLong)
+			}
 		}
 		key := fmt.Sprintf("grpc/parse/overflow/%c", rune(ch))
 		prod := new(big.Int).Mul(maxDigits, big.NewInt(size))
